@@ -2,17 +2,17 @@
 # usage: tools/mutkeep.sh <worktree> <seeded-name>
 # confirm a seeded change living (uncommitted) in a scratch worktree — build+vet clean, demo fails with the change and passes
 # without it — and store it as seeded/<name>/{patch.diff,mutdemo_test.go,MUTATION.md}
+# (no `git stash`: the stash is shared by all worktrees of a repository)
 D="$1"; N="$2"
 export GOFLAGS=-mod=mod GOPROXY=off GOSUMDB=off GOTOOLCHAIN=local
-mkdir -p /tmp/p
+mkdir -p /tmp/p /verif/seeded/$N
 cd "$D" || exit 2
+git diff > /verif/seeded/$N/patch.diff
 go build ./... && go vet . >/dev/null 2>&1 && echo "build+vet ok" || echo "build/vet FAILED"
 go test -run '^TestMutDemo$' -count=1 . > /tmp/p/mk_$N.with 2>&1; echo "demo WITH change: exit $? ($(tail -1 /tmp/p/mk_$N.with | cut -c1-80))"
-git stash -q
+git apply -R /verif/seeded/$N/patch.diff
 go test -run '^TestMutDemo$' -count=1 . > /tmp/p/mk_$N.without 2>&1; echo "demo WITHOUT change: exit $? ($(tail -1 /tmp/p/mk_$N.without | cut -c1-80))"
-git stash pop -q
-mkdir -p /verif/seeded/$N
-git diff > /verif/seeded/$N/patch.diff
+git apply /verif/seeded/$N/patch.diff
 cp mutdemo_test.go MUTATION.md /verif/seeded/$N/ 2>/dev/null
 git status --short | head -5
 wc -l /verif/seeded/$N/patch.diff
